@@ -104,6 +104,7 @@ pub fn gen_conc_run(verif_seed: u64, j: u64) -> ConcRun {
                 pad_to: None,
                 rlimit: None,
                 litter: Vec::new(),
+                cb_panic_at: None,
                 cwd: 0,
                 crash_at: None,
             });
@@ -136,6 +137,7 @@ pub fn gen_conc_run(verif_seed: u64, j: u64) -> ConcRun {
             pad_to: None,
             rlimit: None,
             litter: Vec::new(),
+            cb_panic_at: None,
             cwd: 0,
             crash_at: None,
         };
